@@ -222,7 +222,7 @@ def make_process(pid, gtf, outdir, clean_start=False, with_mapper_caches=False, 
             if with_mapper_caches == "alignment2":
                 # an experiment with two read files
                 sample.file_list.append([V + "data/reads2.fq"])
-            RM.find_annotation = lambda aligner, a: None
+            args.no_junc_bed = True          # no junction file: find_annotation returns None (the real function stays in place)
             mapper = RM.DataSetReadMapper.__new__(RM.DataSetReadMapper)
             mapper.aligner = "minimap2"
             data = RM.DataSetReadMapper.map_reads(mapper, args)
@@ -499,10 +499,19 @@ def make_check(specs):
     return check
 
 
+_RM_ORIG = {}
+
+
 def run_scenario(args):
     name, bound, max_exec = args
     import gffutils
     import src.gtf2db  # noqa
+    import src.read_mapper as RM
+    # a worker process runs several scenarios: stand-ins installed by an earlier one must not survive into the next
+    if not _RM_ORIG:
+        _RM_ORIG.update({k: getattr(RM, k) for k in ("get_aligner", "subprocess", "pysam", "find_annotation", "align_fasta", "index_reference")})
+    for k, v in _RM_ORIG.items():
+        setattr(RM, k, v)
     gffutils.create_db = fake_create_db
     gffutils.FeatureDB = FakeFeatureDB
     os.environ["HOME"] = HOME
